@@ -526,7 +526,10 @@ func spec_mactable_nonnil(h *Session) bool {
 	return vForall(0, len(h.MACTable.Table), func(i int) bool { return h.MACTable.Table[i] != nil })
 }
 
-func verif_inv_MACTable_findMAC_1(rangeindex int) bool { return -1 <= rangeindex }
+func verif_inv_MACTable_findMAC_1(s *MACTable, rangeindex int) bool {
+	return s != nil && -1 <= rangeindex && rangeindex < len(s.Table)
+}
+func verif_dec_MACTable_findMAC_1(s *MACTable, rangeindex int) int { return len(s.Table) - rangeindex }
 
 //verif:props C08 C13
 func verif_contract_Session_DHCPv4IPOffer(h *Session, mac net.HardwareAddr) netip.Addr {
